@@ -191,6 +191,17 @@ CHECKS["C19"] = {
     "explanation": "feature-set differencing + bit-range obligations + E3",
 }
 
+CHECKS["C06"] = {
+    "module": "rules_c06",
+    "level": "translation_validation",
+    "quick_fs": ["default"],
+    "thorough_fs": ["default", "both"],
+    "technique": "symbolic comparison of each code's len function with the value its writer returns (contracts for primitives, canonical linear forms over shared terms); exhaustive table comparison; dispatch-arm rules",
+    "claim": "Partial, stated as such: (L1) every entry of the three LEN tables and six WRITE_LEN tables equals the reference length; (L3) for gamma, delta, zeta, minimal binary, pi, Rice, Golomb and exp-Golomb the value returned by the writer - with write_bits(_, n) counted as n, write_unary(v) as v+1 and nested code writes as their len function (C01.W5 shows these returns equal the bits appended) - is, path by path and under the same guards, the same linear expression as the len function over the same terms (ilog2, shifts, quotients, the minimal-binary limit); (L5) all length dispatchers name the len function of their code. Not covered: omega (recursion) and VByte lengths, consumption by readers (needs duality), and that the shared formulas are the right ones (they are compared with each other and, below WRITE_MAX, with the reference).",
+    "note": "Trusted: rustc MIR/const evaluation, exporter, refcodes.py, primitive return contracts.",
+    "explanation": "symbolic equality of len and write-return expressions + tables + dispatch arms",
+}
+
 NOT_APPLICABLE = {
     "C17": "a bijection over all values of six integer widths is a statement about (x>>1)^-(x&1) on 2^n values: the generic body is a chain of operator-trait calls with no table, pairing, ordering or ownership structure to check; proving the identity needs bit-vector reasoning (a solver) or running it, both outside static analysis (DESIGN.md section 6)",
 }
